@@ -647,6 +647,7 @@ def _execute(record: dict, rng: Optional[random.Random]) -> Outcome:
             v = exc_to_violation(PROP, "O5.8", e, extra={"sink": sink})
         finally:
             if kernel is not None:
+                ch.count("preemption", kernel.switches)  # context switches between worker threads actually taken
                 kernel.shutdown()
                 K.activate(None)
             fakes.uninstall_distributed_fakes()
@@ -698,6 +699,8 @@ def _execute(record: dict, rng: Optional[random.Random]) -> Outcome:
         probes["concurrent_writer_calls"] = 1
     if cfg.get("pressure"):
         probes["sink_pressure_runs"] = 1
+    if sim is not None and sim.rendezvous is not None:
+        ch.count("rendezvous_hold", 300 - sim.rendezvous_budget)
     if sim is not None and sim.rendezvous_met:
         probes["workers_met_in_sink_code"] = 1
     if sim is not None and any("repartition" in str(c[0]) for c in sim.order):
